@@ -270,7 +270,7 @@ pub fn run(run: &Run) {
     );
     run.assume("maps are compared as sorted maps (never by iteration order); an id occurring twice in a result vector is a violation");
     run.regressions(&replay);
-    run.random("streams", run.cases(60_000, 1_000_000), 0.3, strategy, check);
+    run.random("streams", run.cases(120_000, 1_500_000), 0.3, strategy, check);
 }
 
 pub fn replay(_section: &str, case: &Json) -> Option<CheckResult> {
